@@ -758,6 +758,29 @@ func (g *Gen) scenarios() []intent {
 			return append(out, g.req(b, "POST", "SmsValidate", []KV{{"code", code}}))
 		})
 	}
+	if c.has("auth") && c.Sms {
+		// a logged-in account with SMS 2FA starts enrolling ANOTHER number, then uses that code elsewhere
+		add(boost(2, "twofactor"), func() []SymStep {
+			var u string
+			for _, n := range g.names {
+				if a, ok := g.r.acc[n]; ok {
+					if usr, ok := g.r.w.st.users[a.PID]; ok && usr.SMSPhoneNumber != "" {
+						u = n
+					}
+				}
+			}
+			if u == "" {
+				return nil
+			}
+			b := g.browser()
+			out := []SymStep{g.loginStep(b, u, Desc{K: "pw", U: u}, false),
+				g.req(b, "POST", "SmsValidate", []KV{{"code", Desc{K: "sessval", B: b, V: "sms_secret"}}}),
+				{Kind: "tick", D: 15},
+				g.req(b, "POST", "SmsSetup", []KV{{"phone_number", lit("+15559999")}})}
+			route := pickS(g.rng, "SmsRemove", "SmsRemove", "SmsValidate", "SmsConfirm")
+			return append(out, g.req(b, "POST", route, []KV{{"code", Desc{K: "sessval", B: b, V: "sms_secret"}}}))
+		})
+	}
 	if c.has("auth") && c.has("lock") {
 		add(boost(3, "lock"), func() []SymStep { // run an account into the lock, then try the right password
 			u := g.known()
@@ -836,6 +859,10 @@ func (g *Gen) scenarios() []intent {
 				b2 := g.browser()
 				out = append(out, SymStep{Kind: "copycookie", U: b2, PW: &Desc{K: "lit", V: b}},
 					SymStep{Kind: "dropsess", U: b2},
+					SymStep{Kind: "req", Req: &SymReq{Browser: b2, Method: "GET", Route: "App", Arg: "00u0010"}})
+			case 3: // a fabricated cookie for the same account on another browser
+				b2 := g.browser()
+				out = append(out, SymStep{Kind: "forgecookie", U: b2, PW: &Desc{K: "lit", V: u}}, SymStep{Kind: "dropsess", U: b2},
 					SymStep{Kind: "req", Req: &SymReq{Browser: b2, Method: "GET", Route: "App", Arg: "00u0010"}})
 			case 1: // password change revokes
 				pw := lit("Changed-9!Zz")
